@@ -14,7 +14,7 @@ from . import _meta as M
 
 PID = 'C12'
 RULE = ('single-operation buckets (each public operation family first, then up to 2 cheap instructions) and composition buckets from the '
-        'concolic program generator; D in 2..7 (reverse 2..5), every D\' in 1..D-1 is checked for each case; P in 1..3 with different base '
+        'concolic program generator; D in 2..10 (reverse 2..6), fwd-largeD buckets D in {12,...,24}, every D\' in 1..D-1 is checked for each case; P in 1..3 with different base '
         'points.  Non-trivial = D >= 4 (so that some 2 <= D\' < D exists) and some input coefficient of order >= D\'=2 is non-zero; '
         'distinct by descriptor hash')
 ASSUMPTIONS = [
@@ -76,6 +76,11 @@ def buckets(tier):
         bl.append(Bucket('fwd-growth:' + fam,
                          (lambda fam=fam: M.meta_cases(tier, first=fam, families=['bin', 'neg', 'get', 'dot'], max_len=2, Dmin=3, Dmax=10, growth=True)),
                          prop_forward, {'quick': 40, 'thorough': 300}, nontrivial=_nontrivial, classes=M.base_classes))
+    # many coefficients: kernels may switch algorithm with D (blocked / FFT convolutions, cached tables)
+    for fam in ('bin', 'dot', 'pow', 'bcast', 'iop', 'un', 'inv', 'solve', 'shift'):
+        bl.append(Bucket('fwd-largeD:' + fam,
+                         (lambda fam=fam: M.meta_cases(tier, first=fam, families=['bin', 'neg', 'get'], max_len=2, Dlist=[12, 16, 24, 13, 20])),
+                         prop_forward, {'quick': 12, 'thorough': 120}, nontrivial=_nontrivial, classes=M.base_classes, weight=6.0))
     for fam in M.FWD_SINGLE:
         bl.append(Bucket('fwd:' + fam, (lambda fam=fam: M.meta_cases(tier, first=fam, families=M.CHEAP_TAIL, max_len=3, Dmin=2)),
                          prop_forward, {'quick': 100 if fam in ('special', 'unp') else 40, 'thorough': 600}, nontrivial=_nontrivial,
